@@ -346,6 +346,63 @@ def deep_case(res, depth, label):
     res.failures.append(Failure(None, f"C02 {label}: depth {depth} built to depth {d}", {"depth": depth}))
 
 
+class Cancelled(BaseException):
+  """Not an Exception subclass (like KeyboardInterrupt / asyncio.CancelledError)."""
+
+
+def _raise_cancelled(x=None):
+  INVOKED_FAILING.append("cancelled")
+  raise Cancelled("cancelled")
+
+
+def _raise_stop(x=None):
+  INVOKED_FAILING.append("stop")
+  raise StopIteration("exhausted")
+
+
+INVOKED_FAILING = []
+
+
+def failure_propagation_cases(res):
+  """A callable that raises - also a BaseException that is no Exception, also StopIteration - stops the build:
+  the exception propagates, nothing that depends on the failing Buildable is invoked, no sibling is dropped,
+  a shared failing node is invoked once."""
+  for boom, cls in ((_raise_cancelled, Cancelled), (_raise_stop, StopIteration)):
+    for shape in range(4):
+      failing = fdl.Config(boom, 1)
+      if shape == 0:
+        root = fdl.Config(l2.fa, failing, b=fdl.Config(l2.fa, 2))
+      elif shape == 1:
+        root = fdl.Config(l2.fd, x=[fdl.Config(l2.fa, 1), failing, fdl.Config(l2.fa, 3)], y=fdl.Config(l2.fa, 4))
+      elif shape == 2:
+        root = fdl.Config(l2.fd, x={"k": failing}, y=(failing, fdl.Config(l2.fa, 5)), z=failing)   # shared
+      else:
+        root = [fdl.Config(l2.fa, failing), fdl.Config(l2.fa, 6)]
+      del INVOKED_FAILING[:]
+      del common.CALL_LOG[:]
+      res.evaluations += 1
+      res.count("failure-propagation")
+      replay = {"label": f"failure-propagation:{cls.__name__}:{shape}", "root": repr(root)[:600]}
+      try:
+        out = fdl.build(root)
+        res.failures.append(Failure(None, f"C02 {replay['label']}: build returned {out!r:.200} although a callable "
+                                    f"raised {cls.__name__}", replay))
+        continue
+      except BaseException as e:  # pylint: disable=broad-except
+        if not isinstance(e, cls):
+          res.failures.append(Failure(None, f"C02 {replay['label']}: {type(e).__name__} escaped instead of "
+                                      f"{cls.__name__}: {e!s:.200}", replay))
+          continue
+      if len(INVOKED_FAILING) != 1:
+        res.failures.append(Failure(None, f"C02 {replay['label']}: the failing callable was invoked "
+                                    f"{len(INVOKED_FAILING)} times", replay))
+      # fa(a=...) of a parent of the failing node must not have been called
+      after = [c for c in common.CALL_LOG if c[0] == "fd"]
+      if after:
+        res.failures.append(Failure(None, f"C02 {replay['label']}: a Buildable that depends on the failing one was "
+                                    "invoked", replay))
+
+
 def plant_nan(rng, root):
   """A value that is not equal to itself (float('nan')) as an argument of some Buildables - preferably
   shared ones: memoization is by identity, whatever == says."""
@@ -386,6 +443,7 @@ def run(tier: str, seed: int) -> Result:
     one_case(rng, res, intern, stream, root, f"dag#{i}")
   for i in range(10 if tier == "quick" else 200):
     temporaries_case(rng, res, f"temp#{i}")
+  failure_propagation_cases(res)
   for depth in ([50, 200] if tier == "quick" else [50, 100, 200, 300, 400]):
     deep_case(res, depth, f"deep{depth}")
   return res
